@@ -5,6 +5,7 @@ package main
 
 import (
 	"bytes"
+	"runtime"
 	"context"
 	"fmt"
 	"math/rand"
@@ -502,6 +503,8 @@ func execServe(f []string) Result {
 	}}
 	if withHandler {
 		c.Handle(mqtt.HandlerFunc(func(m *mqtt.Message) {
+			runtime.Gosched()
+			time.Sleep(200 * time.Microsecond)
 			mu.Lock()
 			timeline = append(timeline, fmt.Sprintf("H(topic=%s id=%d qos=%d retain=%v dup=%v payload=%s)", hexOrDash([]byte(m.Topic)), m.ID, m.QoS, m.Retain, m.Dup, showBytes(m.Payload)))
 			mu.Unlock()
@@ -551,6 +554,12 @@ func execServe(f []string) Result {
 	if !closedSeen {
 		r.Props = append(r.Props, viol("C06", "no-closed-callback", "no Closed state callback with error on %x: %v", stream, states))
 	}
+	if want, ok := inboundSpecTimeline(stream, withHandler); ok {
+		if got := strings.Join(timeline, " "); got != want {
+			r.Props = append(r.Props, viol("C04", "timeline", "inbound flow on %x: observed [%s], MQTT flow rules give [%s]", stream, got, want))
+		}
+		r.Tags = append(r.Tags, "c04")
+	}
 	// malformed packet must end the link with a library error, not be skipped
 	if kind := firstMalformed(stream); kind != "" && (errClass(err) == "E:EOF" || errClass(err) == "ok") {
 		r.Props = append(r.Props, viol("C06", "malformed-not-fatal-"+kind, "stream %x has a malformed packet (%s) but the connection ended with %s", stream, kind, errClass(err)))
@@ -589,3 +598,109 @@ func firstMalformed(stream []byte) string {
 }
 
 var _ = context.Background
+
+// inboundSpecTimeline is the declarative reading of property C04 over a stream that consists only
+// of well-formed PUBLISH and PUBREL packets: per position, what must be handed over and written.
+// ok=false when the stream contains anything else (then C04 says nothing).
+func inboundSpecTimeline(stream []byte, handler bool) (string, bool) {
+	var pk []*SPkt
+	b := stream
+	for len(b) > 0 {
+		p, rest, err := specDecode(b)
+		if err != nil || (p.Type != 0x30 && p.Type != 0x60) {
+			return "", false
+		}
+		if p.Type == 0x30 && (!utf8.ValidString(p.Topic) || strings.ContainsRune(p.Topic, 0)) {
+			return "", false
+		}
+		pk = append(pk, p)
+		b = rest
+	}
+	var out []string
+	ho := func(p *SPkt) {
+		if handler {
+			out = append(out, fmt.Sprintf("H(topic=%s id=%d qos=%d retain=%v dup=%v payload=%s)", hexOrDash([]byte(p.Topic)), p.ID, p.QoS, p.Retain, p.Dup, showBytes(p.Payload)))
+		}
+	}
+	for i, p := range pk {
+		switch {
+		case p.Type == 0x30 && p.QoS == 0:
+			ho(p)
+		case p.Type == 0x30 && p.QoS == 1:
+			ho(p)
+			out = append(out, "W("+hexOrDash(specAck(0x40, p.ID))+")")
+		case p.Type == 0x30 && p.QoS == 2:
+			out = append(out, "W("+hexOrDash(specAck(0x50, p.ID))+")")
+		case p.Type == 0x60:
+			// effective iff a QoS 2 PUBLISH with this id occurs before i with no effective PUBREL(id) in between:
+			// scan backwards to the latest PUBLISH(id) / PUBREL(id); a PUBREL(id) found first is either
+			// effective (consumed the publish) or ineffective (then there was no publish before it either,
+			// unless an even earlier effective one consumed it) - in both cases nothing is pending.
+			var latest *SPkt
+			for j := i - 1; j >= 0; j-- {
+				if pk[j].Type == 0x60 && pk[j].ID == p.ID {
+					break
+				}
+				if pk[j].Type == 0x30 && pk[j].QoS == 2 && pk[j].ID == p.ID {
+					latest = pk[j]
+					break
+				}
+			}
+			if latest != nil {
+				ho(latest)
+				out = append(out, "W("+hexOrDash(specAck(0x70, p.ID))+")")
+			}
+		}
+	}
+	return strings.Join(out, " "), true
+}
+
+func init() {
+	// ---- inflow: sequences over PUBLISH q0/q1/q2 and PUBREL for C04 (executed by `serve`) ----
+	register(&funcEngine{name: "inflow",
+		gen: func(rng *rand.Rand, tier string, n int, emit func(string)) {
+			ids := []uint16{1, 2, 3, 65535}
+			sym := func(k int, id uint16, dup bool) []byte {
+				switch k {
+				case 0:
+					return specPublish("t/0", []byte{byte(id)}, 0, false, false, 0)
+				case 1:
+					return specPublish("t/1", []byte{byte(id), 1}, 1, false, dup, id)
+				case 2:
+					return specPublish("t/2", []byte{byte(id), 2, byte(rand.Intn(1) + 7)}, 2, false, dup, id)
+				}
+				return specAck(0x62, id)
+			}
+			if tier == "thorough" {
+				// all sequences up to length 5 over a 9-symbol alphabet
+				alpha := [][]byte{sym(0, 1, false), sym(1, 1, false), sym(1, 2, true), sym(2, 1, false), sym(2, 1, true), sym(2, 2, false),
+					sym(3, 1, false), sym(3, 2, false), sym(3, 3, false)}
+				var rec func(prefix []byte, depth int)
+				rec = func(prefix []byte, depth int) {
+					if len(prefix) > 0 {
+						emit("@serve 1 " + descBytes(prefix))
+					}
+					if depth == 0 {
+						return
+					}
+					for _, a := range alpha {
+						rec(append(append([]byte{}, prefix...), a...), depth-1)
+					}
+				}
+				rec(nil, 5)
+			}
+			for i := 0; i < n; i++ {
+				k := rng.Intn(41)
+				var b []byte
+				for j := 0; j < k; j++ {
+					b = append(b, sym(rng.Intn(4), ids[rng.Intn(len(ids))], rng.Intn(2) == 0)...)
+				}
+				h := 1
+				if rng.Intn(5) == 0 {
+					h = 0
+				}
+				emit(fmt.Sprintf("@serve %d %s", h, descBytes(b)))
+			}
+		},
+		exec: func(f []string) Result { return Result{Out: "unused"} }})
+}
